@@ -52,7 +52,16 @@ impl Property for C13 {
             &built.sigs,
             &SpecCfg { palette: Palette::Small, zx: 0, free_layout: true, must_supply: built.must_supply(), both_driver_types: true },
         );
-        let empty_layout = reads_nothing && built.analysis.reads.is_empty() && dch.chance(1, 2);
+        // one case in twenty-four: every answer of the driver ends with an entry for a signal the test
+        // does not know. Whatever that does to the fault-free run (if it is not clean the case is
+        // discarded below) - a later answer that has a signal of the test in that place is a
+        // different answer
+        let foreign = dch.chance(1, 24);
+        if foreign {
+            spec0.foreign = true;
+            out.class("driver-reports-an-unknown-signal");
+        }
+        let empty_layout = !foreign && reads_nothing && built.analysis.reads.is_empty() && dch.chance(1, 2);
         if empty_layout {
             spec0.layout.clear();
             out.class("first-answer-without-entries");
@@ -116,7 +125,8 @@ impl Property for C13 {
             let n = spec.layout.len();
             let outs: Vec<usize> = (0..built.sigs.len()).filter(|i| built.sigs[*i].is_output()).collect();
             let p = if n == 0 { 0 } else { dch.upto(n) };
-            let dev = match if n == 0 { 1 } else { dch.upto(7) } {
+            let dev = match if foreign && !outs.is_empty() { 7 } else if n == 0 { 1 } else { dch.upto(7) } {
+                7 => Deviation::ForeignReplaced(outs[dch.upto(outs.len())]),
                 6 if n >= 2 => {
                     let mut q = dch.upto(n);
                     if q == p {
@@ -151,6 +161,7 @@ impl Property for C13 {
                 Deviation::Substitute(..) => "dev:substitute",
                 Deviation::Rewidth(_) => "dev:rewidth",
                 Deviation::SwapInPlace(..) => "dev:swap-in-place",
+                Deviation::ForeignReplaced(_) => "dev:unknown-signal-replaced",
             });
             spec.deviate_at = Some((c, dev));
             render_case(&mut out, &text, &built.sigs, Some(&spec));
